@@ -240,6 +240,9 @@ def builders(ctx):
 
 def run(ctx):
     proof = common.proof_status(ctx)
+    # block-level correspondence of the file block-list model the FileMap theorems are about
+    from . import filemapcorr
+    filemapcorr.run(ctx, 14 if ctx.tier == "quick" else 350)
     tf = common.translator_failures(ctx, NEEDED)
     if tf:
         proof["problems"].append("translator could not translate: %s" % tf)
